@@ -304,11 +304,20 @@ class Interp:
                 return ModuleVal(r[1])
             if r[0] == "global":
                 _, mi, expr = r
-                self.frames.append(Frame(None, {}, module=mi))
-                try:
-                    return self.eval(expr)
-                finally:
-                    self.frames.pop()
+                ov = self.__dict__.get("global_overrides", {})
+                for gname, gexpr in mi.globals_.items():
+                    if gexpr is expr and (mi.relpath, gname) in ov:
+                        return ov[(mi.relpath, gname)]
+                # a module-level assignment is evaluated once (module initialisation) and the object is shared afterwards
+                cache = self.__dict__.setdefault("_globals_cache", {})
+                key = (mi.relpath, id(expr))
+                if key not in cache:
+                    self.frames.append(Frame(None, {}, module=mi))
+                    try:
+                        cache[key] = self.eval(expr)
+                    finally:
+                        self.frames.pop()
+                return cache[key]
         raise Unsupported(f"cannot wrap {r}")
 
     def external(self, dotted):
@@ -420,6 +429,26 @@ class Interp:
             a = ([f.self_obj] if f.self_obj is not None else []) + list(args)
             return s(self, a, kwargs)
         self.repo.touch(info)
+        if getattr(info, "unknown_decorators", None):
+            raise Unsupported(f"function {info.qualname} carries decorators outside the verified subset: {info.unknown_decorators}")
+        if getattr(info, "memoised", False):
+            # functools.cache / lru_cache: one evaluation per distinct argument tuple (arguments compared by identity / value)
+            memo = self.__dict__.setdefault("_memo", {})
+            try:
+                key = (info.qualname, tuple(self.B.hashable(a) if not isinstance(a, ClassVal) else a for a in
+                                            ([f.self_obj] if isinstance(f.self_obj, ClassVal) else []) + list(args)),
+                       tuple(sorted((k, self.B.hashable(v)) for k, v in kwargs.items())))
+            except Unsupported:
+                raise Unsupported(f"memoised function {info.qualname} called with unhashable / symbolic arguments")
+            if key in memo:
+                return memo[key]
+            r = self._call_func_body(f, args, kwargs)
+            memo[key] = r
+            return r
+        return self._call_func_body(f, args, kwargs)
+
+    def _call_func_body(self, f, args, kwargs):
+        info = f.info
         self_obj = f.self_obj
         if info.kind == "staticmethod":
             self_obj = None
